@@ -143,7 +143,7 @@ theorem conformant_reply_returned_binary (cfg : Cfg) (st : State) (net : Net) (r
     (late : List Bytes) (rest : List Reaction)
     (hf : cfg.framer = .binary) (hw : C01.WFResp m) (he : Impl.encResp m = .ok data)
     (hfc : m.fc = req.pdu.fc ∨ m.fc = req.pdu.fc ||| 0x80) (hexc : 128 ≤ m.fc → data.length = 1)
-    (hnd : NoDelim (binBody req.unit m.fc data))
+    (hnd : NoEnd (binBody req.unit m.fc data))
     (hexp : ExpectedOk cfg req m.fc (data.length + 6))
     (hp : st.pending = []) (henc : C13.Encodable cfg st req) (hbc : isBroadcast cfg req = false)
     (hready : ReadyToSend cfg.transport net)
